@@ -250,11 +250,22 @@ func populateSibling(e *env, features map[string]string) error {
 	}
 	r := &runner{e: e, ctx: ctx, ctrl: ctrl, name: name}
 	past := timeGrid[1]
+	// every (account, asset) pair of the universe holds a huge balance in the sibling: a balance
+	// read that leaks across ledgers turns an insufficient-funds outcome into a success
+	var rich []jPosting
+	for _, a := range accounts[1:] {
+		for _, as := range assets {
+			rich = append(rich, jPosting{Source: "world", Destination: a, Amount: "10000000000000000000000000000000000000000", Asset: as})
+		}
+	}
+	if res := r.runOp(&Step{Op: "tx", Postings: rich}); res != "ok" {
+		return fmt.Errorf("sibling ledger: %s", res)
+	}
 	for _, s := range []Step{
 		{Op: "tx", Postings: []jPosting{{Source: "world", Destination: "users:alice", Amount: "1000000", Asset: "EUR"}, {Source: "world", Destination: "bank", Amount: "500000", Asset: "USD/2"}}, Metadata: map[string]string{"k": "v"}, Reference: "r1", Timestamp: &past},
 		{Op: "tx", Postings: []jPosting{{Source: "world", Destination: "users:bob", Amount: "77777", Asset: "COIN"}, {Source: "world", Destination: "orders:1:pending", Amount: "9", Asset: "COIN"}}, Metadata: map[string]string{"tier": "gold"}, AccountMetadata: map[string]map[string]string{"users:bob": {"k": "sib"}}},
 		{Op: "saveMeta", Target: map[string]any{"account": "bank"}, Metadata: map[string]string{"tier": "sib", "zz": "1"}},
-		{Op: "revert", ID: 2, Force: true},
+		{Op: "revert", ID: 3, Force: true},
 	} {
 		st := s
 		if res := r.runOp(&st); res != "ok" {
